@@ -567,6 +567,15 @@ class AioWorld(WorldBase):
             return self.shutdown_event is not None and not self.shutdown_event.is_set()
         if kind == "terminate":  # conn-level stand-in for "shutdown has begun"
             return self.context is not None and not self.context.terminated.is_set()
+        if kind == "wait_status":  # pseudo event: the client has seen a response head (h2: on stream ev[2])
+            rec = self.conns.get(ev[1])
+            cl = None if rec is None else rec.client
+            if cl is None:
+                return False
+            if cl.h2 is not None and cl.h1 is None:
+                st = cl.h2.streams.get(ev[2] if len(ev) > 2 else 1)
+                return st is not None and st["status"] is not None
+            return cl.h1 is not None and bool(cl.h1.responses)
         if kind == "wait_closed":  # pseudo event: enabled once the server closed connection k
             rec = self.conns.get(ev[1])
             return rec is not None and rec.closed_at is not None
@@ -617,7 +626,7 @@ class AioWorld(WorldBase):
         elif kind == "terminate":
             self.shutdown_at = self.now()
             self.context.terminated._event.set()
-        elif kind in ("wait_closed", "wait_idle"):
+        elif kind in ("wait_closed", "wait_idle", "wait_status"):
             pass
         elif kind == "call":
             ev[1](self)
